@@ -273,6 +273,11 @@ pub enum Fault {
 }
 
 pub struct SpyState {
+    /// what width() answers instead of the grid width (a terminal that reports less than it has,
+    /// e.g. before it was widened); None = the grid width
+    pub report_w: Option<u16>,
+    /// answers for the next width() queries, consumed one per query, before `report_w` applies
+    pub width_script: std::collections::VecDeque<u16>,
     pub model: TermModel,
     pub vt: Option<vt100::Parser>,
     /// every TermLike method call, including width/height
@@ -309,6 +314,8 @@ impl Spy {
             } else {
                 None
             },
+            report_w: None,
+            width_script: Default::default(),
             calls: 0,
             fallible_calls: 0,
             flushes: 0,
@@ -436,7 +443,10 @@ impl TermLike for Spy {
     fn width(&self) -> u16 {
         let mut st = self.st();
         st.calls += 1;
-        st.model.w as u16
+        if let Some(w) = st.width_script.pop_front() {
+            return w;
+        }
+        st.report_w.unwrap_or(st.model.w as u16)
     }
 
     fn height(&self) -> u16 {
